@@ -64,23 +64,26 @@ type rawFinding struct {
 	kind    string // leaf-diff kind, or accessor name
 	item    obsItem
 	raw     string
+	fm      *finalMode // final mode other than the case's (a failing Commit inside the history)
 }
 
 type Witness struct {
-	Case     Case              `json:"case"`
-	Oracle   string            `json:"oracle"`
-	Features string            `json:"class_features,omitempty"`
-	Needs    string            `json:"leak_needs,omitempty"`
-	Region   int               `json:"region_label"`
-	History  []string          `json:"history"`
-	Diff     *leafDiff         `json:"leaf_diff,omitempty"`
-	AllDiffs []leafDiff        `json:"all_leaf_diffs,omitempty"`
-	Accessor string            `json:"accessor,omitempty"`
-	Was      string            `json:"answer_at_snapshot,omitempty"`
-	Now      string            `json:"answer_after_revert,omitempty"`
-	Roots    map[string]string `json:"roots,omitempty"`
-	FromCase int               `json:"from_case_index"`
-	FromLen  int               `json:"from_history_length"`
+	Case        Case              `json:"case"`
+	Oracle      string            `json:"oracle"`
+	Features    string            `json:"class_features,omitempty"`
+	Needs       string            `json:"leak_needs,omitempty"`
+	Region      int               `json:"region_label"`
+	History     []string          `json:"history"`
+	Diff        *leafDiff         `json:"leaf_diff,omitempty"`
+	AllDiffs    []leafDiff        `json:"all_leaf_diffs,omitempty"`
+	Accessor    string            `json:"accessor,omitempty"`
+	Was         string            `json:"answer_at_snapshot,omitempty"`
+	Now         string            `json:"answer_after_revert,omitempty"`
+	Roots       map[string]string `json:"roots,omitempty"`
+	CommitError string            `json:"commit_error,omitempty"`
+	CodeMissing []string          `json:"code_missing_for,omitempty"`
+	FromCase    int               `json:"from_case_index"`
+	FromLen     int               `json:"from_history_length"`
 }
 
 // focus keeps the control operations and the operations that can touch account x
@@ -108,6 +111,26 @@ func focus(h []Op, x common.Address) []Op {
 		if keep {
 			out = append(out, o)
 		}
+	}
+	return out
+}
+
+// resFindings turns one twin comparison into raw findings (hist / label filled in by the caller).
+func resFindings(res *twinResult) []rawFinding {
+	var out []rawFinding
+	switch {
+	case res.twinPanic != "":
+		out = append(out, rawFinding{oracle: "twin-panic", kind: "twin-execution-panics", global: true})
+	case res.commitErr != "":
+		out = append(out, rawFinding{oracle: "commit", kind: "commit-error", global: true})
+	case res.mismatch() && len(res.diffs) == 0:
+		out = append(out, rawFinding{oracle: "twin-nodiff", kind: "no-leaf-diff", global: true})
+	}
+	for i := range res.diffs {
+		out = append(out, rawFinding{oracle: "twin", kind: res.diffs[i].Kind, addr: res.diffs[i].Addr})
+	}
+	if len(res.codeMissing) > 0 {
+		out = append(out, rawFinding{oracle: "code", kind: "code-hash-without-blob", global: true})
 	}
 	return out
 }
@@ -170,12 +193,16 @@ func lifecycle(S *runner, a common.Address) string {
 // reverted region at the end of the history.
 func evalCase(r *mon.Run, d account.AccountDatabase, c Case, ci int, stats bool) []rawFinding {
 	h := c.Hist
+	var failedCommit *finalMode // a Commit/Reopen operation of the history itself returned an error
 	if p, msg := firstOutOfScopePanic(d, h); p >= 0 {
 		// judged only up to an operation that panics by itself (see firstOutOfScopePanic)
 		if stats {
 			r.Count("histories_cut_at_out_of_scope_panic", 1)
 			r.Count("out_of_scope_panic_in_"+h[p].K, 1)
 			r.Note("out-of-scope panic in %s: %s", h[p].K, msg)
+		}
+		if (h[p].K == "Commit" || h[p].K == "Reopen") && strings.HasPrefix(msg, "harness: commit") {
+			failedCommit = &finalMode{D: h[p].D, IR: false}
 		}
 		h = h[:p]
 	}
@@ -216,29 +243,32 @@ func evalCase(r *mon.Run, d account.AccountDatabase, c Case, ci int, stats bool)
 		f.caseIdx = ci
 		out = append(out, f)
 	}
-	twin := func(p []Op, label int, where string) bool {
+	twinFM := func(p []Op, label int, where string, fm finalMode, custom bool) bool {
 		th, ok := twinOf(p, label)
 		if !ok {
 			panic("harness: no twin for a well-formed history")
 		}
-		res := twinCheck(d, p, th, c.Final)
+		res := twinCheck(d, p, th, fm)
 		r.Count("twin_root_comparisons", 1)
 		r.Count("twin_root_comparisons_"+where, 1)
-		if !res.mismatch() {
+		if res.bothCommitErr != "" {
+			r.Count("commit_fails_in_original_and_twin", 1)
+			r.Note("Commit fails in the original and in the twin: %s", res.bothCommitErr)
 			return false
 		}
-		switch {
-		case res.twinPanic != "":
-			emit(rawFinding{hist: p, label: label, oracle: "twin-panic", kind: "twin-execution-panics", global: true})
-		case len(res.diffs) == 0:
-			emit(rawFinding{hist: p, label: label, oracle: "twin-nodiff", kind: "no-leaf-diff", global: true})
+		r.Count("commit_and_reopen_code_checks", 1)
+		fs := resFindings(res)
+		for _, f := range fs {
+			f.hist, f.label = p, label
+			if custom {
+				m := fm
+				f.fm = &m
+			}
+			emit(f)
 		}
-		for i := range res.diffs {
-			df := res.diffs[i]
-			emit(rawFinding{hist: p, label: label, oracle: "twin", kind: df.Kind, addr: df.Addr})
-		}
-		return true
+		return len(fs) > 0
 	}
+	twin := func(p []Op, label int, where string) bool { return twinFM(p, label, where, c.Final, false) }
 	local := false
 	for j := range h {
 		if h[j].K != "Revert" {
@@ -290,6 +320,9 @@ func evalCase(r *mon.Run, d account.AccountDatabase, c Case, ci int, stats bool)
 	if !local && len(h) > 0 { // all reverted regions removed at once; only new information if no single region already differs
 		twin(h, 0, "all_regions")
 	}
+	if failedCommit != nil { // the failing Commit of the history, against the twin without reverted regions
+		twinFM(h, 0, "failed_commit_in_history", *failedCommit, true)
+	}
 	for i := range out {
 		f := &out[i]
 		_, cls, _ := classify(d, f.hist, f.addr, f.global, false, f.label) // cls: kind of account before the region
@@ -303,6 +336,9 @@ func evalCase(r *mon.Run, d account.AccountDatabase, c Case, ci int, stats bool)
 			}
 		}
 		f.raw = f.oracle + "|" + f.kind + "|" + cls + "|" + groupList(fams)
+		if f.oracle == "commit" || f.oracle == "code" {
+			f.raw = "ingredient-free|" + f.raw
+		}
 		if f.oracle == "twin" || f.oracle == "twin-nodiff" || f.oracle == "twin-panic" {
 			// Triage (one more twin execution): does the difference survive when every known
 			// ingredient (see oracle.go) is removed from both executions? Those findings form
@@ -352,6 +388,9 @@ func reduceDepth(r *mon.Run, d account.AccountDatabase, c Case, f rawFinding, bu
 	}
 	h := append([]Op(nil), f.hist...)
 	fm := c.Final
+	if f.fm != nil {
+		fm = *f.fm
+	}
 	safe := func(p func() bool) (ok bool) {
 		defer func() {
 			if recover() != nil {
@@ -407,6 +446,16 @@ func reduceDepth(r *mon.Run, d account.AccountDatabase, c Case, f rawFinding, bu
 		pred = func(fm finalMode) func([]Op) bool {
 			return twinPred(fm, func(res *twinResult) bool { return res.twinPanic != "" })
 		}
+	case "commit":
+		pred = func(fm finalMode) func([]Op) bool {
+			return twinPred(fm, func(res *twinResult) bool { return res.commitErr != "" })
+		}
+	case "code":
+		pred = func(fm finalMode) func([]Op) bool {
+			return twinPred(fm, func(res *twinResult) bool {
+				return res.twinPanic == "" && res.commitErr == "" && res.bothCommitErr == "" && len(res.codeMissing) > 0
+			})
+		}
 	case "accessor":
 		pred = func(finalMode) func([]Op) bool {
 			return func(c []Op) bool {
@@ -459,7 +508,7 @@ func reduceDepth(r *mon.Run, d account.AccountDatabase, c Case, f rawFinding, bu
 	// normal form: if the minimal witness of a difference that showed late already
 	// differs right after a revert, report that earlier leak instead (the later
 	// difference is its consequence)
-	if depth < 3 && (f.oracle == "twin" || f.oracle == "twin-nodiff" || f.oracle == "twin-panic") {
+	if depth < 3 && f.oracle != "accessor" && f.oracle != "stale" {
 		for j := range m {
 			if m[j].K != "Revert" || (f.label != 0 && m[j].ID != f.label) || (j == len(m)-1 && f.label != 0) {
 				continue
@@ -470,18 +519,15 @@ func reduceDepth(r *mon.Run, d account.AccountDatabase, c Case, f rawFinding, bu
 				continue
 			}
 			var res *twinResult
-			if !safe(func() bool { res = twinCheck(d, p, th, fm); return true }) || !res.mismatch() {
+			if !safe(func() bool { res = twinCheck(d, p, th, fm); return true }) {
 				continue
 			}
-			f2 := rawFinding{caseIdx: f.caseIdx, hist: append([]Op(nil), p...), label: m[j].ID, raw: f.raw}
-			switch {
-			case res.twinPanic != "":
-				f2.oracle, f2.kind, f2.global = "twin-panic", "twin-execution-panics", true
-			case len(res.diffs) == 0:
-				f2.oracle, f2.kind, f2.global = "twin-nodiff", "no-leaf-diff", true
-			default:
-				f2.oracle, f2.kind, f2.addr = "twin", res.diffs[0].Kind, res.diffs[0].Addr
+			fs := resFindings(res)
+			if len(fs) == 0 {
+				continue
 			}
+			f2 := fs[0]
+			f2.caseIdx, f2.hist, f2.label, f2.raw = f.caseIdx, append([]Op(nil), p...), m[j].ID, f.raw
 			r.Count("findings_normalised_to_earlier_leak", 1)
 			c2 := c
 			c2.Final = fm
@@ -583,6 +629,23 @@ func reduceDepth(r *mon.Run, d account.AccountDatabase, c Case, f rawFinding, bu
 		}
 		r.Violation("C04:accessor:"+f.item.Acc+":"+trigger,
 			fmt.Sprintf("[%s] %s answered %q when the snapshot was taken and %q after reverting to it; history %v (account kind before the region: %s)", c.Mode, w.Accessor, w.Was, w.Now, hist, detail), w)
+	case "commit", "code":
+		th, _ := twinOf(m, f.label)
+		res := twinCheck(d, m, th, fm)
+		w.Roots = map[string]string{"commit_original": res.crO.Hex(), "commit_twin": res.crT.Hex()}
+		without := fmt.Sprintf("without the region reverted by Revert #%d", f.label)
+		if f.label == 0 {
+			without = "without its reverted regions"
+		}
+		if f.oracle == "commit" {
+			w.CommitError = res.commitErr
+			r.Violation("C04:commit:error-after-revert"+suffix,
+				fmt.Sprintf("[%s] Commit after the history %v returns %q; the same history %s commits fine", c.Mode, hist, res.commitErr, without), w)
+		} else {
+			w.CodeMissing = res.codeMissing
+			r.Violation("C04:reopen:code-hash-without-blob"+suffix,
+				fmt.Sprintf("[%s] after the history %v is committed and the root reopened, %v carry a code hash whose blob is missing or wrong (GetCode/GetCodeSize disagree with GetCodeHash); in the same history %s the code is there", c.Mode, hist, res.codeMissing, without), w)
+		}
 	case "stale":
 		r.Violation("C04:revert:stale-revision-accepted",
 			fmt.Sprintf("[%s] a revision id taken inside a region that was reverted is still accepted by RevertToSnapshot; history %v", c.Mode, hist), w)
@@ -797,6 +860,6 @@ func main() {
 			"a revision id taken inside an already reverted region must be rejected (RevertToSnapshot panics: its contract in this code and upstream)",
 		},
 		MustObserve: []string{"histories", "reverts_checked", "accessor_comparisons", "twin_root_comparisons", "reverted_mutators", "stale_revision_probes",
-			"mode_unbound_histories", "mode_bound_histories"},
+			"mode_unbound_histories", "mode_bound_histories", "commit_and_reopen_code_checks", "op_SetCode"},
 	})
 }
